@@ -593,3 +593,30 @@ Definition go_grow (f : field) (old needed : nat) : nat :=
 (* the classification of the MergeClause bodies of the tree the model follows on check runs *)
 Definition tree_md (f : field) : bool := match f with FRet => true | _ => false end.
 Definition copy_md (f : field) : bool := false.
+
+(* ---- facts about the sources the model follows (regenerated on every run, FactsOK_C06) ---- *)
+Inductive mclass := MCopy | MInPlace | MNoSlice | MUnknown.
+Definition tree_classes : list (string * mclass) :=
+  [("Delete"%string, MNoSlice); ("From"%string, MNoSlice); ("GroupBy"%string, MCopy); ("Insert"%string, MNoSlice);
+   ("Limit"%string, MNoSlice); ("Locking"%string, MNoSlice); ("OnConflict"%string, MNoSlice);
+   ("OrderBy"%string, MCopy); ("Returning"%string, MInPlace); ("Select"%string, MNoSlice); ("Set"%string, MCopy);
+   ("Update"%string, MNoSlice); ("Values"%string, MNoSlice); ("Where"%string, MCopy)].
+Fixpoint class_of (cl : list (string * mclass)) (name : string) : mclass :=
+  match cl with
+  | [] => MUnknown
+  | (n, c) :: r => if String.eqb n name then c else class_of r name
+  end.
+Definition is_inplace (c : mclass) : bool := match c with MCopy | MNoSlice => false | _ => true end.
+(* the classification as the model's [md]: an unclassifiable body counts as appending in place *)
+Definition md_of_classes (cl : list (string * mclass)) (f : field) : bool :=
+  match f with
+  | FWhere => is_inplace (class_of cl "Where")
+  | FHaving | FGroup => is_inplace (class_of cl "GroupBy")
+  | FOrder => is_inplace (class_of cl "OrderBy")
+  | FRet => is_inplace (class_of cl "Returning")
+  | _ => false
+  end.
+(* Statement.clone: the slices it copies (make+copy); Selects and Omits must be among the shared ones *)
+Definition tree_clone_copied : list string := ["Joins"%string; "scopes"%string].
+(* chain methods append in place only onto these statement-owned slices *)
+Definition tree_self_appends : list string := ["Joins"%string; "Selects"%string; "scopes"%string].
